@@ -56,6 +56,8 @@ RULE = ("opt: all 25 default tables x (every letter once; random proteins of len
         "zero weights, a single dominant codon, the exact 10 % boundary); unencodable residues: lower case, J/B/X/Z/U/O, digits, "
         "'*' under codes 27/28/31, letters whose synonyms all have weight zero, at the first / a middle / the last position; "
         "rp: random.ProteinSequence for lengths -1..6 and random lengths to 2000, random seeds, all 25 tables and re-weighted ones; "
+        "hist: one private table instance through optimize / re-weight in place / optimize again / swap two entries' letters / translate "
+        "(every step judged against the table as it is at that moment); proteins around block sizes (1023..4097; 255..65537 thorough); "
         "union (statistical): per table, a protein with every letter 12 times, 40 calls; freq (statistical): 10^5 (quick) / 10^6 "
         "(thorough) draws for one letter, 7 sigma band. Out of domain (correspondence only): negative weights (rand.Intn panics), "
         "tables listing a triplet twice. non-trivial = protein longer than one residue; distinct by case text")
@@ -101,6 +103,28 @@ def cases(seed, tier):
             pos = r.choice([0, len(w) // 2, len(w)])
             w.insert(pos, r.choice(bad))
             yield ["opt", spec, "".join(w), "2"]
+    # ---- histories on ONE private table instance: optimize, re-weight in place, optimize again, re-letter, ...
+    for _ in range(20 if not thorough else 200):
+        i = r.choice(IDS)
+        letters = "".join(sorted(by_aa(i)))
+        steps = ["O:" + randword(r, letters, r.randint(1, 40))]
+        for _ in range(r.randint(1, 4)):
+            cds = biased_cds(r, i, r.randint(20, 300))
+            steps.append("W:" + cds)
+            enc = encodable_letters(i, cds) or letters
+            steps.append("O:" + randword(r, enc if r.random() < 0.7 else letters, r.randint(1, 60)))
+            if r.random() < 0.3:
+                steps.append("S:%d,%d" % (r.randrange(0, 64), r.randrange(0, 64)))
+                steps.append("O:" + randword(r, enc, r.randint(1, 30)))
+            if r.random() < 0.5:
+                steps.append("T:" + randword(r, ACGT, r.randint(3, 90)))
+        yield ["hist", "id:%d" % i, "3"] + steps
+    # ---- proteins around typical block sizes
+    for L in ([1023, 1024, 1025, 2048, 2049, 4096, 4097] if not thorough else
+              [255, 256, 257, 341, 342, 343, 511, 512, 513, 682, 683, 1023, 1024, 1025, 1026, 1365, 1366, 2047, 2048, 2049, 4095, 4096, 4097, 8192, 8193, 16385, 65537]):
+        i = r.choice(IDS)
+        yield ["opt", "id:%d" % i, randword(r, "".join(sorted(by_aa(i))), L), "1"]
+    # ---- tables with no start / stop codon lists (Optimize only looks at the amino acids)
     # a coding sequence in lower / mixed case re-weights like its upper case
     yield ["opt", "rw:11:atgAAAaaaAAGtaa", "MK*", "5"]
     # ---- hand-written tables
@@ -118,6 +142,10 @@ def cases(seed, tier):
     yield ["union", "txt:" + boundary, "L" * 40, "20"]
     above = table(lambda a, c: {"TTA": 2, "TTG": 1, "CTT": 1, "CTC": 1, "CTA": 1, "CTG": 13}.get(c, 1))     # 2/19 > 10 %
     yield ["union", "txt:" + above, "L" * 60, "40"]
+    yield ["opt", "txt:" + ten.replace("ATG/TAA,TAG,TGA/", "//"), "MKF*", "3"]
+    yield ["opt", "txt:" + ten.replace("ATG/TAA,TAG,TGA/", "ATG//"), "MKF*", "3"]
+    nostar = ";".join(e for e in ten.split("/")[2].split(";") if not e.startswith("*:"))     # not a partition: correspondence only
+    yield ["opt", "txt:ATG/TAA,TAG,TGA/" + nostar, "MKF*", "3"]
     zero = table(lambda a, c: 0 if a in "KR" else 7)
     yield ["opt", "txt:" + zero, "MAKV", "3"]
     yield ["opt", "txt:" + zero, "MAV", "3"]
@@ -143,6 +171,8 @@ def cases(seed, tier):
     # ---- the library's own random proteins
     for n in range(-1, 7):
         yield ["rp", str(n), str(r.randrange(0, 1000)), "id:1"]
+    for sd in [0, 1, -1, 2 ** 63 - 1, -2 ** 63, 2 ** 31 - 1, 2 ** 31, 2 ** 32]:
+        yield ["rp", str(r.randint(3, 40)), str(sd), "id:11"]
     for i in IDS:
         yield ["rp", str(r.randint(3, 60)), str(r.randrange(-2 ** 40, 2 ** 40)), "id:%d" % i]
     for _ in range(40 if not thorough else 600):
